@@ -59,6 +59,8 @@ def gen_cases(tier, seed):
     if tier == "thorough":
         for j in range(4):
             yield {"kind": "file", "impl": ("sync", "async")[j % 2], "maxdata": [1024 * 1024, 65536][j // 2], "size": 5 * 1024 * 1024 + j, "seed": "%d:big%d" % (seed, j)}
+    for j in range(8 if tier == "quick" else 40):
+        yield {"kind": "special", "impl": ("sync", "async")[j % 2], "maxdata": rng.choice(mds[:4]), "cb": [None, "ok", "raise", "ok"][j % 4], "seed": "%d:sp%d" % (seed, j)}
     for j in range(120 if tier == "quick" else 900):
         yield {"kind": "cbdiff", "impl": ("sync", "async")[j % 2], "maxdata": rng.choice(mds[:5]), "size": rng.choice([0, 1, 3000, 10000, 70000]), "seed": "%d:c%d" % (seed, j)}
     for j in range(180 if tier == "quick" else 1500):
@@ -119,6 +121,26 @@ def run_case(case):
                     sample = {"case": case, "step": step if plen < 100 else dict(step, path=step["path"][:40] + "..."), "records": (["SEND " + repr(p["spec"][:40])] + ["DATA %d" % c for c in p["chunks"][:6]] + ["DONE %r" % p["mtime"], "status " + str(p["status"])]) if p else None,
                               "wrte_sizes": [len(pk.payload) for (_, pk) in sess.sim.host_log if pk.cmd == "WRTE"][:8]}
                 return {"sig": sig, "violations": _dedupe(viol), "stats": stats, "sample": sample}
+            finally:
+                sess.dispose()
+        if case["kind"] == "special":
+            # local files whose st_size says nothing about their content (procfs): what read() yields is what must arrive
+            src = "/proc/version"
+            with open(src, "rb") as f:
+                content = f.read()
+            sess = gen.make_session(case["impl"], dict(dims, noise=[]), case["seed"])
+            try:
+                calls = []
+                cb = scen.make_callback(case["impl"], case["cb"], calls)
+                out = sess.call("push", src, "/special", mtime=5, progress_callback=cb)
+                stats["pushes"] += 1
+                stats["special_sources"] = 1
+                pushed = sess.sim.sync_plan.pushed
+                if not out.ok:
+                    viol.append(mk("C07", "raised:%s" % out.exc_name(), "push(%s, callback=%s) raised %s" % (src, case["cb"], out.brief(120))))
+                elif len(pushed) != 1 or bytes(pushed[0]["data"]) != content or pushed[0]["status"] != "OKAY":
+                    viol.append(mk("C07", "wrong-bytes", "push(%s, callback=%s): device file has %s bytes, read() yields %d" % (src, case["cb"], len(pushed[0]["data"]) if pushed else None, len(content))))
+                return {"sig": "special|%s|%s" % (case["impl"], case["cb"]), "violations": _dedupe(viol), "stats": stats, "sample": {"case": case, "source": src, "bytes": len(content)}}
             finally:
                 sess.dispose()
         if case["kind"] == "cbdiff":
